@@ -114,7 +114,41 @@ def main():
 
             shutil.rmtree(d, ignore_errors=True)
             dds.set_store("memory")
-    print(json.dumps({"scope": "3 commit types x 4 value types x {store, commit, re-commit, leading-dot path, end-to-end keep/load with an edit and a revert} on a fake dbutils.fs",
+    # histories of commit types over the same directories (a store re-configured between runs): after a commit under
+    # type t the postcondition of t holds, whatever the earlier types were
+    import itertools
+
+    cts = (("full", CommitType.FULL), ("links_only", CommitType.LINK_ONLY), ("none", CommitType.NO_COMMIT))
+    for hist in itertools.product(cts, repeat=3):
+        for keys in (("k1", "k1", "k1"), ("k1", "k2", "k1"), ("k1", "k2", "k2")):
+            evals += 1
+            db = FakeDbutils()
+            committed = None  # key named by the record
+            tag = "commit types %s, keys %s" % ([h[0] for h in hist], list(keys))
+            for (ct_name, ct), k in zip(hist, keys):
+                st = DBFSStore(DBFSURI.parse("dbfs:/int"), DBFSURI.parse("dbfs:/data"), db, ct)
+                for kk in ("k1", "k2"):
+                    if not st.has_blob(kk):
+                        st.store_blob(kk, "value of " + kk, None)
+                before = dict(db.fs.files)
+                st.sync_paths(OrderedDict([("/h/p", k)]))
+                data = {p: v for p, v in db.fs.files.items() if p.startswith("dbfs:/data/")}
+                if ct == CommitType.NO_COMMIT:
+                    if db.fs.files != before:
+                        note(None, "[%s] a 'none' commit changed %s" % (tag, sorted(set(db.fs.files) ^ set(before))))
+                    continue
+                committed = k
+                try:
+                    got = dict(st.fetch_paths(["/h/p"]))
+                except BaseException as e:
+                    got = "<%s>" % type(e).__name__
+                if got != {"/h/p": k}:
+                    note(None, "[%s] after the %s commit of /h/p -> %s the record resolves to %r" % (tag, ct_name, k, got))
+                if ct == CommitType.FULL and data.get("dbfs:/data/h/p") != ("value of " + k).encode("utf-8"):
+                    note(None, "[%s] after the 'full' commit of /h/p -> %s the data directory holds %r at the path, not a copy of the result" % (tag, k, data.get("dbfs:/data/h/p")))
+                if ct == CommitType.LINK_ONLY and data.get("dbfs:/data/h/p") != before.get("dbfs:/data/h/p"):
+                    note(None, "[%s] a 'links only' commit wrote the object at the path" % tag)
+    print(json.dumps({"scope": "81 histories of 3 commit types over the same directories + 3 commit types x 4 value types x {store, commit, re-commit, leading-dot path, end-to-end keep/load with an edit and a revert} on a fake dbutils.fs",
                       "evaluations": evals, "distinct_nontrivial": evals, "rule": "one case per (commit type, operation)", "samples": [{"commit_type": "links_only", "op": "sync_paths then fetch_paths"}],
                       "violations": violations, "known_hits": ["bounded:%s (%d cases, e.g. %s)" % (c, len(w), w[0][:160]) for c, w in sorted(known.items())]}))
 
